@@ -1,11 +1,14 @@
 import Zed.Model.VngSexp
 import Zed.Model.VecProject
 import Zed.Model.VecLoad
+import Zed.Model.VecGuard
 /-!
   Driver glue for C03.
   `(C03 enc (types t…) (seq (k v)…))`   → model `encTop` as a `top` s-expression
   `(C03 dec <top>)`                      → model `readRows` of a column tree (the dump of a real
                                            VNG object or a model encoding): `((type value)…)` | `error`
+  `(C03 guard (types t…) (seq (k v)…))` → `1` when the object is inside the guard `seqOK` of the
+                                           vector-path theorems (outside the recorded defect classes)
   `(C03 wf (types t…) (seq (k v)…))`    → `1` when every value conforms to its type, else `0`
   `(C03 vec (paths (hex…)…) <top>)`    → model vector path (loader + projection + materializer) over a
                                            column tree: `((type value)…)` | `fail` (error or panic)
@@ -38,6 +41,10 @@ def handle : List Sexp → String
       match readRows t with
       | none => "error"
       | some rows => toString (rowsSexp rows)
+  | [.atom "guard", ts, xs] =>
+    match parseInput ts xs with
+    | none => "bad-op"
+    | some vs => if seqOK vs then "1" else "0"
   | [.atom "wf", ts, xs] =>
     match parseInput ts xs with
     | none => "bad-op"
